@@ -389,6 +389,148 @@ for _kw in ("None", "dict"):
     TASKS.append(FunctionTask(READ_D, module_env=_RENVD, registry={"File.readlines": FuncV(_m_readlines, "readlines"), "HvsrDiffuseField.update_peaks_bounded": FuncV(_m_search, "update_peaks_bounded")},
                               label=f"hvsrpy.object_io.read_hvsr_object_from_file[diffuse_field,kwargs={_kw}]", clauses=["the diffuse-field object read back has the stored curve"]))
 
+# ---------------------------------------------------------------------------------------------------------------------
+# the azimuthal branch of the reader (as repaired for F-19): one group of columns per stored mask list, in order; azimuth a is the number in the title of the
+# first column of group a; object a holds exactly the columns of its group; the peak search with the stored range runs on the whole object before every
+# azimuth's stored masks are installed, unchanged.  NCUR(a) = length of the stored mask list of azimuth a; OFFN(a) = number of curves before azimuth a.
+HZR = z3.Int("n_stored_azimuths")
+NCURS = z3.Function("stored_mask_length", I, I)
+OFFR = z3.Function("OFFR", I, I)
+STOREDW = z3.Function("stored_valid_window_mask", I, AB)
+STOREDP = z3.Function("stored_valid_peak_mask", I, AB)
+AZTXT = z3.Function("azimuth_text_of_column_title", I, I)
+PFLOAT = z3.Function("float_of_text", I, R)
+OBJAT = z3.Function("object_built_from_columns_starting_at", I, I)
+_a2, _s2, _t2 = z3.Ints("a!offr s!offr t!offr")
+AX_OFFR = [OFFR(0) == 0, z3.ForAll([_a2], z3.Implies(_a2 >= 0, OFFR(_a2 + 1) == OFFR(_a2) + NCURS(_a2)), patterns=[OFFR(_a2 + 1)]),
+           z3.ForAll([_s2, _t2], z3.Implies(z3.And(0 <= _s2, _s2 < _t2, _t2 <= HZR), OFFR(_s2) + NCURS(_s2) <= OFFR(_t2)), patterns=[z3.MultiPattern(OFFR(_s2), OFFR(_t2))]),
+           z3.ForAll([_s2], z3.Implies(z3.And(0 <= _s2, _s2 <= HZR), OFFR(_s2) >= 0), patterns=[OFFR(_s2)]),
+           z3.ForAll([_s2, _t2], z3.Implies(z3.And(0 <= _s2, _s2 < _t2, _t2 < HZR), OBJAT(1 + OFFR(_s2)) != OBJAT(1 + OFFR(_t2))), patterns=[z3.MultiPattern(OBJAT(1 + OFFR(_s2)), OBJAT(1 + OFFR(_t2)))])]
+from pyvc.core import SeqV
+from pyvc import objects as _o12
+_HT = "HvsrTraditional"
+AMP3 = None
+
+
+def _amp3():
+    key = (_HT, "amplitude", "data3")
+    if key not in _o12._FUNCS:
+        _o12._FUNCS[key] = z3.Function(f"fld_{_HT}_amplitude_at", I, I, I, R)
+    return _o12._FUNCS[key]
+
+
+def _m_loads_az(kw):
+    def f(ex, st, args, kw_, node):
+        items = _meta_value("azimuthal", kw)
+        mk = lambda F: SeqV(HZR, lambda ex_, st_, a: ex_.alloc_arr(st_, (NCURS(a),), F(a), "bool", "fresh", tag="stored_mask"), owner="fresh", name="stored_masks")
+        items["valid_window_boolean_masks"], items["valid_peak_boolean_masks"] = mk(STOREDW), mk(STOREDP)
+        d = DictV(items)
+        st.env["__meta"] = d
+        return d
+    return FuncV(f, "json.loads")
+
+
+def _m_split_titles(ex, st, args, kw, node):
+    """the last header line split at the commas: one title per column of the array (A-TEXT-ROUNDTRIP: what np.savetxt wrote)"""
+    return _o12.new_symlist(ex, st, _o12.STR_LIST, length=NCOL, name="titles")
+
+
+class _TitleLine(StrV):
+    pass
+
+
+def _m_azimuth_search(ex, st, args, kw, node):
+    s = args[0]
+    if not isinstance(s, _o12.IdxStr):
+        raise Undecided("azimuth_exec.search of something other than a column title")
+    from contracts.C07 import OStr
+    return ModV("match", {"groups": FuncV(lambda e2, s2, a2, k2, n2, _i=s.index: Tup((OStr(AZTXT(_i)),)), "groups")})
+
+
+def _m_float_az(ex, st, args, kw, node):
+    from contracts.C07 import OStr
+    if isinstance(args[0], OStr):
+        return PFLOAT(args[0].sym_id)
+    return npm.BUILTINS["float"].fn(ex, st, args, kw, node)
+
+
+def _m_ht_ctor(ex, st, args, kw, node):
+    """HvsrTraditional(frequency, curves as rows): a new object whose rows are the columns handed over (transposed view of a column block of the array)"""
+    fr, a = ex.arr(st, args[0]), ex.arr(st, args[1])
+    probe = z3.simplify(ex.sel2(a, z3.IntVal(0), z3.IntVal(0)))        # LOADED[0][start]: the first column of the block identifies the object
+    start = st.env["start_idx"]
+    oid = OBJAT(lit(start))
+    r, c = z3.Ints("r!ht c!ht")
+    st.pc += [_o12.fld(_HT, "amplitude_rows", I)(oid) == a.shape[0], _o12.fld(_HT, "amplitude_cols", I)(oid) == a.shape[1],
+              z3.ForAll([r, c], z3.Implies(z3.And(r >= 0, r < a.shape[0], c >= 0, c < a.shape[1]), _amp3()(oid, r, c) == ex.sel2(a, r, c)), patterns=[_amp3()(oid, r, c)])]
+    return SObj(_HT, oid, owner="fresh")
+
+
+def _m_haz_ctor(ex, st, args, kw, node):
+    return ex.alloc_obj(st, "HvsrAzimuthal", {"hvsrs": kw["hvsrs"], "azimuths": kw["azimuths"], "meta": kw.get("meta", NONE), "__searched": NONE}, "fresh")
+
+
+def _m_search_az(ex, st, args, kw, node):
+    o = st.heap[args[0].oid]
+    o.fields["__searched"] = Tup((kw.get("search_range_in_hz", Tup((NONE, NONE))), kw.get("find_peaks_kwargs", NONE)))
+    st.env["__VWM"], st.env["__VPM"] = ex.fresh("window_masks_after_search", z3.ArraySort(I, AB)), ex.fresh("peak_masks_after_search", z3.ArraySort(I, AB))
+    return NONE
+
+
+def _sobj_setattr(ex, st, o, attr, val, node):
+    key = {"valid_window_boolean_mask": "__VWM", "valid_peak_boolean_mask": "__VPM"}.get(attr)
+    if key is None or not isinstance(val, ARef):
+        raise Undecided(f"write to field {attr} of a per-azimuth object")
+    st.env[key] = z3.Store(st.env[key], o.id, ex.arr(st, val).data)
+
+
+def _raz_inputs(ex, st):
+    st.env["fname"] = StrV("<fname>")
+    st.env["M"], st.env["NCOL"], st.env["HZR"] = MW, NCOL, HZR
+    st.env["__VWM"], st.env["__VPM"] = z3.Const("window_masks_initial", z3.ArraySort(I, AB)), z3.Const("peak_masks_initial", z3.ArraySort(I, AB))
+    k = z3.Int("k!nc")
+    return [MW >= 1, NL_ >= 1, ISHDR(0), HZR >= 1, NCOL == OFFR(HZR) + 3, z3.ForAll([k], z3.Implies(z3.And(k >= 0, k < HZR), NCURS(k) >= 1), patterns=[NCURS(k)])]
+
+
+def _obj_of(a):
+    return OBJAT(1 + OFFR(a))
+
+
+RAZ_GHOST = dict(R_GHOST, OFFR=OFFR, NCURS=NCURS, HZR=HZR, IS_HEADER=lambda t: ISHDR(t),
+                 AZ_OF=lambda a: PFLOAT(AZTXT(1 + OFFR(a))), OBJ=lambda a: _obj_of(a),
+                 AMPOBJ=lambda a, k, i: _amp3()(_obj_of(a), k, i), ROWS=lambda a: _o12.fld(_HT, "amplitude_rows", I)(_obj_of(a)),
+                 COLS=lambda a: _o12.fld(_HT, "amplitude_cols", I)(_obj_of(a)),
+                 VWM=FuncV(lambda ex, st, a, k, n_: z3.Select(st.env["__VWM"], lit(a[0])), "VWM"), VPM=FuncV(lambda ex, st, a, k, n_: z3.Select(st.env["__VPM"], lit(a[0])), "VPM"),
+                 SW=lambda a: STOREDW(a), SP=lambda a: STOREDP(a), same_obj=FuncV(lambda ex, st, a, k, n_: a[0].id == lit(a[1]), "same_obj"))
+_GRP = "forall(a, 0, {n}, same_obj(hvsrs[a], OBJ(a)) and azimuths[a] == AZ_OF(a))"
+for _kw in ("None", "dict"):
+    _ENVAZ = dict(open=FuncV(_m_open_r, "open"), json=ModV("json", {"loads": _m_loads_az(_kw)}), np=ModV("np", dict(npm.NP.attrs, loadtxt=FuncV(_m_loadtxt, "np.loadtxt"))),
+                  HvsrTraditional=FuncV(_m_ht_ctor, "HvsrTraditional"), HvsrAzimuthal=FuncV(_m_haz_ctor, "HvsrAzimuthal"), HvsrDiffuseField=_m_ctor("HvsrDiffuseField"),
+                  azimuth_exec=ModV("azimuth_exec", {"search": FuncV(_m_azimuth_search, "azimuth_exec.search")}), float=FuncV(_m_float_az, "float"))
+    READ_A = Contract(
+        qual="hvsrpy.object_io.read_hvsr_object_from_file", params=["fname"], ghost=RAZ_GHOST, axioms=AX_OFFR, make_inputs=_raz_inputs,
+        sym_lists={"header_lines": "str", "hvsrs": "HvsrTraditional", "azimuths": "real"},
+        ensures=["len(result.hvsrs) == HZR and len(result.azimuths) == HZR",
+                 "forall(a, 0, HZR, same_obj(result.hvsrs[a], OBJ(a)) and result.azimuths[a] == AZ_OF(a))",
+                 "forall(a, 0, HZR, ROWS(a) == NCURS(a) and COLS(a) == M)",
+                 "forall(a, 0, HZR, forall(k, 0, NCURS(a), forall(i, 0, M, AMPOBJ(a, k, i) == LOADED(i, 1 + OFFR(a) + k))))",
+                 "searched_with(result, META('search_range_in_hz'), META('find_peaks_kwargs'))",
+                 "forall(a, 0, HZR, VWM(OBJ(a)) == SW(a) and VPM(OBJ(a)) == SP(a))", "meta_is_loaded(result)"],
+        loops={0: ["len(header_lines) == _k0", "forall(t, 0, _k0, IS_HEADER(t))"],
+               1: ["start_idx == 1 + OFFR(_k1)", "len(hvsrs) == _k1 and len(azimuths) == _k1", _GRP.format(n="_k1"),
+                   "forall(a, 0, _k1, ROWS(a) == NCURS(a) and COLS(a) == M)",
+                   "forall(a, 0, _k1, forall(k, 0, NCURS(a), forall(i, 0, M, AMPOBJ(a, k, i) == LOADED(i, 1 + OFFR(a) + k))))"],
+               2: ["forall(a, 0, _k2, VWM(OBJ(a)) == SW(a) and VPM(OBJ(a)) == SP(a))"]},
+        modifies=[], notes="azimuthal file: group a of the columns (NCURS(a) of them, after the groups before it) becomes the curves of azimuth a, whose value is the number in the "
+                           "title of the group's first column; the search with the stored range runs once on the whole object, then every azimuth's stored masks are installed")
+    READ_A.ghost_state = ("__meta", "__VWM", "__VPM")
+    READ_A.sobj_setattr = _sobj_setattr
+    READ_A.str_split_model = _m_split_titles
+    TASKS.append(FunctionTask(READ_A, module_env=_ENVAZ,
+                              registry={"File.readlines": FuncV(_m_readlines, "readlines"), "HvsrAzimuthal.update_peaks_bounded": FuncV(_m_search_az, "update_peaks_bounded")},
+                              label=f"hvsrpy.object_io.read_hvsr_object_from_file[azimuthal,kwargs={_kw}]",
+                              clauses=["the azimuthal object read back has the stored curves per azimuth, azimuths, range, filters and masks"]))
+
 META = dict(
     level="other",
     explanation="structural obligations: the writer never rebinds its `hvsr` parameter and takes frequency / mean / std columns from it, deep-copies meta; the "
